@@ -73,6 +73,8 @@ def convert_const(name, T, ctx):
 
 def convert(t, var_names, assms, to_real, ctx):
     """Convert term t to Z3 input."""
+    bound_names = set()  # names of the variables bound by quantifiers in t
+
     def rec(t):
         if t.is_var():
             z3_t = convert_const(t.name, t.T, ctx)
@@ -82,6 +84,7 @@ def convert(t, var_names, assms, to_real, ctx):
         elif t.is_forall():
             nm = name.get_variant_name(t.arg.var_name, var_names)
             var_names.append(nm)
+            bound_names.add(nm)
             v = Var(nm, t.arg.var_T)
             z3_v = convert_const(nm, t.arg.var_T, ctx)
             body = rec(t.arg.subst_bound(v))
@@ -92,6 +95,7 @@ def convert(t, var_names, assms, to_real, ctx):
         elif t.is_exists():
             nm = name.get_variant_name(t.arg.var_name, var_names)
             var_names.append(nm)
+            bound_names.add(nm)
             v = Var(nm, t.arg.var_T)
             z3_v = convert_const(nm, t.arg.var_T, ctx)
             body = rec(t.arg.subst_bound(v))
@@ -139,7 +143,8 @@ def convert(t, var_names, assms, to_real, ctx):
             return rec(t.arg1) / rec(t.arg)
         elif t.is_comb('of_nat', 1):
             if t.get_type() == RealType:
-                if t.arg.is_var():
+                if t.arg.is_var() and t.arg.name not in bound_names:
+                    # Free nat variable: use a separate nonnegative real constant.
                     if t.arg.name not in to_real:
                         nm = name.get_variant_name("r" + t.arg.name, var_names)
                         var_names.append(nm)
